@@ -32,5 +32,15 @@ def build(chk):
                      unwind=2 * n + 2, timeout=120, bounds='all bit patterns (floats: all finite values)', backends=('minisat', 'kissat')))
     chk.assumptions += ['one inductive step from an arbitrary box satisfying the representation invariant (canonical empty, or min<=max on every axis) covers extendBy histories of any length; the invariant is re-established by every step',
                         'the generic template is instantiated through a vector type derived from Vec3<T>/Vec2<T> defined in the wrapper TU']
+    ex = EngB(chk, 'boxalgo', vopts=dict(nvec=60))
+    ex.variant('ufar', uf=['add', 'sub', 'mul', 'div'], only=['w_xformf', 'w_xform_outf', 'w_affinef', 'w_affine_outf'])
+    for nm in ('transform_pair_affine', 'transform_pair_p001', 'transform_pair_0p01', 'transform_pair_00p1', 'transform_pair_000q', 'transform_pair_general', 'affine_pair'):
+        chk.add(ex.ob('O4.%s' % nm, 'c13/xform.c', 'h_' + nm, '%s: the out-parameter overload produces bit for bit what the value-returning overload returns, for every box and every matrix (affine and projective), whatever result held before' % nm.split('_')[0],
+                      variant='ufar', unwind=20, timeout=300, extra=('--object-bits', '14'), core=(nm in ('transform_pair_affine', 'affine_pair')), tier=('quick' if nm in ('transform_pair_affine', 'affine_pair') else 'thorough'), bounds='all non-empty, non-infinite boxes, all matrices and previous-result bit patterns (FP + - * / uninterpreted on both sides)', backends=('z3', 'kissat', 'minisat')))
+    ex.variant('exact', only=['w_xformf', 'w_xform_outf', 'w_affinef', 'w_affine_outf'])
+    for col in ('0001', '1001', '0101', '0011', '0002'):
+        for nm, d in (('xform_lattice_value', 'transform(box,m)'), ('xform_lattice_outparam', 'transform(box,m,result)')):
+            chk.add(ex.ob('O4.%s.col%s' % (nm, col), 'c13/xform.c', 'h_%s_%s' % (nm, col), '%s, identity linear part, last column (%s), integer box corners: tight bound of the eight PROJECTED corner images on real IEEE floats (affine-detection test entry by entry; projective branch), whatever result held before' % (d, ','.join(col)),
+                          variant='exact', unwind=20, timeout=300, bounds='box corners integers in [-2,2]^3, w > 0 at every corner, arbitrary previous contents of result', backends=('kissat', 'cadical', 'minisat')))
     from props import c13sym
     c13sym.build_obs(chk)
